@@ -43,6 +43,9 @@ pub struct Profile {
     /// (l0 threshold, table target size, ratio) for the whole run, many keys, long histories of
     /// writes / flushes / leveled compactions only - this is what grows deep multi-table levels
     pub leveled_focus: bool,
+    /// no values of 64 KiB and more (C10: every stored byte gets corrupted in the thorough tier,
+    /// and the format bytes are what matters there, not long payloads)
+    pub no_huge_values: bool,
 }
 
 pub const W_WRITE: usize = 0;
@@ -93,6 +96,7 @@ impl Profile {
             shared_blob_prelude: false,
             bulk_prelude: false,
             leveled_focus: false,
+            no_huge_values: false,
         }
     }
 }
@@ -731,7 +735,7 @@ pub fn gen_run(property: &str, seed: u64, p: &Profile) -> RunSpec {
         disc: Discipline::default(),
         fifo_counter: 0,
         fifo_descending: p.fifo && r.chance(1, 2),
-        huge_values: r.chance(1, 8),
+        huge_values: r.chance(1, 8) && !p.no_huge_values,
         // (not next to a compaction filter: the filter oracle attributes a shown version to its
         // write by the value, which must then be unique)
         empty_values: {
